@@ -147,6 +147,7 @@ type Machine struct {
 	ctxs          []*CtxObj
 	background    *CtxObj
 	race          raceState
+	lastIOLimit   *Term
 	tickIntervals []*Term
 	guards        map[*MapObj]*MutexObj
 	guardViol     int
